@@ -140,6 +140,16 @@ func H10_echo() {
 		}
 		verifJudgeECS(w.written[0], true, fam, mask, qscope, addr, hasMap, tag)
 	}
+	if cache.Enabled {
+		// a later plain query served from the same cache entry carries nothing of the earlier one
+		pq := new(dns.Msg)
+		pq.Id = 9
+		pq.Question = []dns.Question{{Name: name, Qtype: qtype, Qclass: dns.ClassINET}}
+		pw := &verifWriter{remote: verifClientIPs[2]}
+		_, _ = env.h.ServeDNSWithRCODE(context.Background(), pw, pq)
+		nd.Assert(len(pw.written) == 1, "one-reply")
+		verifJudgeECS(pw.written[0], false, 0, 0, 0, nil, hasMap, "plain-after-cached")
+	}
 }
 
 func qclassDiffers(q *dns.Msg) bool { return q.Question[0].Qclass != dns.ClassINET }
